@@ -228,6 +228,11 @@ def exhaustive_small(rng):
         area = (bytes([1, cut]) + bytes(cut) if cut != 1 else b"\x00") if cut else b""
         area = (area + bytes([0xC2, 4]) + be32(16))[:6].ljust(6, b"\x05")
         ops.append("parse IPv6 " + hexs(base(0, 0) + bytes([253, 0]) + area + pl))
+    # a fixed header whose payload was not captured, under Ethernet (fixed KF-C03-Ip6-1: it used to be re-serialized with next
+    # header 0, and the minimum-frame padding was then read as a hop-by-hop header), for every final protocol
+    for nh in DISPATCH + UNKNOWN_PROTO + EXT:
+        ops.append("parse EthernetII " + hexs(bytes(12) + be16(0x86dd) + base(14, nh)))
+        ops.append("parse IPv6 " + hexs(base(14, nh)))
     # fragment header in front of each dispatching protocol: the payload stays raw
     for nh in DISPATCH + [253]:
         for off_m in (0, 1, 8, 0xfff9):
